@@ -1,21 +1,716 @@
 import RzilVerif.Model.CompileH
+import RzilVerif.Model.HybWF
+import RzilVerif.Lemmas.HybProg
+import RzilVerif.Lemmas.HybChk
+import RzilVerif.Lemmas.HybSem
+import RzilVerif.Lemmas.HybFragD
+import RzilVerif.Props.C05Compose
 /-!
-# C06 — first version: facts about the hybrid machinery of the lowering model (full theorems in progress)
+# C06 — value-producing side effects (postfix `++`/`--`, sub-routine calls, statement-expressions)
+
+Theorems about the hybrid machinery of the lowering model `CompileH` (`Pend`, `popPending`, `chk`,
+`compileExprH`, `compileStmtH`, `compileProgH`) as it is, for ALL inputs, plus kernel-checked witnesses of the
+classes in which the code (and hence the model under `Cfg.asCode`) violates the property.
+
+1. `popPending_perm`            — popping loses and invents nothing
+2. `compile*_fresh`, `*_pendOK` — temporaries are fresh; the invariant `PendOK` is preserved
+3. `setTmps_nodup`, `setTmps_length_le`, `setTmps_perm`, `setTmps_length_eq`
+                                — every temporary is set at exactly one place of the emitted tree
+4. `chk_*`                      — where `chk` puts the popped entries: before their consumer (after, for a loop step)
+5. `post_*`, `guard_*`, `stmtexpr_*` — values on the IL semantics
+6. `witness_*`                  — violations (C result vs. result of the emitted IL)
+7. `compileExprH_unhyb`, `evalCH_unhyb`, `decl_post_sim`, `assign_post_sim`, `*_closed`
+                                — simulation for declarations / assignments whose right-hand side contains postfix
+                                  operations on locals not otherwise mentioned (repaired configuration `Cfg.fixed`)
 -/
 namespace Rzil
+namespace C06
+open C05 (ExecIL)
 
-/-- Popping never invents entries: what is popped was pending. -/
-theorem popPending_nil (leaves : List String) : popPending [] leaves = ([], []) := by
-  induction leaves with
+/-! ## 1. `popPending` -/
+
+/-- Popping the entries named among `l`: what is popped (`a`) was pending and is named in `l`; what stays (`b`)
+    is a sub-list of the pending entries, none of them named in `l` (no distinctness needed for that);
+    every pending name survives on one of the two sides; and with pairwise distinct names `a ++ b` is a
+    permutation of the pending entries: nothing invented, nothing lost. -/
+theorem popPending_perm (p : List Pend) (l : List String) (a b : List Pend) (h : popPending p l = (a, b)) :
+    (∀ x ∈ a, x ∈ p ∧ x.tmp ∈ l) ∧
+    (b.Sublist p ∧ ∀ x ∈ b, x.tmp ∉ l) ∧
+    (∀ x ∈ p, ∃ y ∈ a ++ b, y.tmp = x.tmp) ∧
+    ((p.map (·.tmp)).Nodup → (a ++ b).Perm p) := by
+  obtain ⟨h1, h2, h3, h4, h5, _, h7⟩ := popPending_spec p l
+  rw [h] at h1 h2 h3 h4 h5 h7
+  refine ⟨h1, ⟨h2, h3⟩, ?_, h7⟩
+  intro x hx
+  by_cases hm : x.tmp ∈ l
+  · obtain ⟨y, hy, e⟩ := h4 x hx hm
+    exact ⟨y, List.mem_append_left _ hy, e⟩
+  · exact ⟨x, List.mem_append_right _ (h5 x hx hm), rfl⟩
+
+/-- every entry whose name is among the leaves is popped (by name) -/
+theorem popPending_complete (p : List Pend) (l : List String) :
+    ∀ x ∈ p, x.tmp ∈ l → ∃ y ∈ (popPending p l).1, y.tmp = x.tmp :=
+  (popPending_spec p l).2.2.2.1
+
+private def exA : Pend := { tmp := "h_tmp0", deps := [], exec := .empty, setTmp := .setl "h_tmp0" .btrue, setFirst := true, gcc := false }
+private def exB : Pend := { tmp := "h_tmp1", deps := [], exec := .nop, setTmp := .setl "h_tmp1" .bfalse, setFirst := false, gcc := false }
+private def exA' : Pend := { exA with exec := .nop }
+
+/-- non-vacuity: distinct names, one popped, one left -/
+example : ([exA, exB].map (·.tmp)).Nodup ∧
+    (popPending [exA, exB] ["h_tmp1", "x"]).1.map (·.tmp) = ["h_tmp1"] ∧
+    (popPending [exA, exB] ["h_tmp1", "x"]).2.map (·.tmp) = ["h_tmp0"] := by decide
+
+/-- without distinct names an entry can be lost (so the permutation claim needs the hypothesis):
+    two entries named `h_tmp0`, one is popped, both are removed -/
+example : ((popPending [exA, exA'] ["h_tmp0"]).1 ++ (popPending [exA, exA'] ["h_tmp0"]).2).length = 1 := by decide
+
+/-! ## 2. Freshness -/
+
+theorem tmpName_eq (n : Nat) : tmpName n = s!"h_tmp{n}" := rfl
+
+/-- `s!"h_tmp{n}"` is injective in `n` -/
+theorem tmpName_injective : ∀ a b : Nat, s!"h_tmp{a}" = s!"h_tmp{b}" → a = b := fun _ _ h => tmpName_inj h
+
+/-- the freshness statement of the specification, derived from `Fresh` -/
+theorem Fresh.spec {st st' : HSt} (h : Fresh st st') :
+    st.hyb ≤ st'.hyb ∧
+    ∀ p ∈ st'.pending, (∃ q ∈ st.pending, q.tmp = p.tmp) ∨ ∃ n, st.hyb ≤ n ∧ n < st'.hyb ∧ p.tmp = s!"h_tmp{n}" :=
+  ⟨h.1, fun _ hp => h.mem hp⟩
+
+/-- Compiling an expression: the counter only grows, and every pending entry afterwards carries the name of an
+    entry pending before (`?:` may have wrapped its exec part in a BRANCH) or a new name `h_tmp{n}`,
+    `st.hyb ≤ n < st'.hyb`. -/
+theorem compileExprH_fresh {env : CEnv} {st st' : HSt} {e : CExpr} {ce : CE}
+    (h : compileExprH env st e = .ok (ce, st')) :
+    st.hyb ≤ st'.hyb ∧
+    ∀ p ∈ st'.pending, (∃ q ∈ st.pending, q.tmp = p.tmp) ∨ ∃ n, st.hyb ≤ n ∧ n < st'.hyb ∧ p.tmp = s!"h_tmp{n}" :=
+  (compileExprH_rel freshRelE env e (fun _ _ => trivial) (Or.inl trivial) h).spec
+
+theorem compileArgsH_fresh {env : CEnv} {st st' : HSt} {as : List CExpr} {ps : List CT} {r : List ILPure}
+    (h : compileArgsH env st as ps = .ok (r, st')) :
+    st.hyb ≤ st'.hyb ∧
+    ∀ p ∈ st'.pending, (∃ q ∈ st.pending, q.tmp = p.tmp) ∨ ∃ n, st.hyb ≤ n ∧ n < st'.hyb ∧ p.tmp = s!"h_tmp{n}" :=
+  (compileArgsH_rel freshRelE env as ps (fun _ _ => trivial) (Or.inl trivial) h).spec
+
+theorem compileStmtH_fresh {env : CEnv} {st st' : HSt} {s : CStmt} {eff : Option ILEffect} {b : List String}
+    (h : compileStmtH env st s = .ok (eff, b, st')) :
+    st.hyb ≤ st'.hyb ∧
+    ∀ p ∈ st'.pending, (∃ q ∈ st.pending, q.tmp = p.tmp) ∨ ∃ n, st.hyb ≤ n ∧ n < st'.hyb ∧ p.tmp = s!"h_tmp{n}" :=
+  (compileStmtH_rel freshRel env s (fun _ _ => trivial) (Or.inl trivial) h).spec
+
+theorem compileStmtsH_fresh {env : CEnv} {st st' : HSt} {ss : List CStmt} {es : List ILEffect} {b : List String}
+    (h : compileStmtsH env st ss = .ok (es, b, st')) :
+    st.hyb ≤ st'.hyb ∧
+    ∀ p ∈ st'.pending, (∃ q ∈ st.pending, q.tmp = p.tmp) ∨ ∃ n, st.hyb ≤ n ∧ n < st'.hyb ∧ p.tmp = s!"h_tmp{n}" :=
+  (compileStmtsH_rel freshRel env ss (fun _ _ => trivial) (Or.inl trivial) h).spec
+
+/-- the invariant in the words of the specification -/
+theorem pendOK_iff (st : HSt) :
+    PendOK st ↔ (st.pending.map (·.tmp)).Nodup ∧ ∀ p ∈ st.pending, ∃ n, n < st.hyb ∧ p.tmp = s!"h_tmp{n}" := by
+  simp only [PendOK, tmpsOf, List.mem_map, forall_exists_index, and_imp, forall_apply_eq_imp_iff₂]
+  rfl
+
+/-- `PendOK` (pairwise distinct temporaries, all numbered below the counter) is preserved. -/
+theorem compileExprH_pendOK {env : CEnv} {st st' : HSt} {e : CExpr} {ce : CE}
+    (h : compileExprH env st e = .ok (ce, st')) (hok : PendOK st) : PendOK st' :=
+  (compileExprH_rel freshRelE env e (fun _ _ => trivial) (Or.inl trivial) h).pendOK hok
+
+theorem compileArgsH_pendOK {env : CEnv} {st st' : HSt} {as : List CExpr} {ps : List CT} {r : List ILPure}
+    (h : compileArgsH env st as ps = .ok (r, st')) (hok : PendOK st) : PendOK st' :=
+  (compileArgsH_rel freshRelE env as ps (fun _ _ => trivial) (Or.inl trivial) h).pendOK hok
+
+theorem compileStmtH_pendOK {env : CEnv} {st st' : HSt} {s : CStmt} {eff : Option ILEffect} {b : List String}
+    (h : compileStmtH env st s = .ok (eff, b, st')) (hok : PendOK st) : PendOK st' :=
+  (compileStmtH_rel freshRel env s (fun _ _ => trivial) (Or.inl trivial) h).pendOK hok
+
+theorem compileStmtsH_pendOK {env : CEnv} {st st' : HSt} {ss : List CStmt} {es : List ILEffect} {b : List String}
+    (h : compileStmtsH env st ss = .ok (es, b, st')) (hok : PendOK st) : PendOK st' :=
+  (compileStmtsH_rel freshRel env ss (fun _ _ => trivial) (Or.inl trivial) h).pendOK hok
+
+/-- every pending entry sets exactly its own temporary (`setTmp = SETL(tmp, …)`, an `h_tmp` name): preserved -/
+theorem compileStmtsH_shapeOK {env : CEnv} {st st' : HSt} {ss : List CStmt} {es : List ILEffect} {b : List String}
+    (h : compileStmtsH env st ss = .ok (es, b, st')) (hok : ∀ p ∈ st.pending, shapeOK p) :
+    ∀ p ∈ st'.pending, shapeOK p :=
+  compileStmtsH_rel shapeRel env ss (fun _ _ => trivial) (Or.inl trivial) h hok
+
+theorem compileExprH_shapeOK {env : CEnv} {st st' : HSt} {e : CExpr} {ce : CE}
+    (h : compileExprH env st e = .ok (ce, st')) (hok : ∀ p ∈ st.pending, shapeOK p) :
+    ∀ p ∈ st'.pending, shapeOK p :=
+  compileExprH_rel shapeRelE env e (fun _ _ => trivial) (Or.inl trivial) h hok
+
+/-- the counter advances by exactly the number of hybrids of the source -/
+theorem compileStmtsH_counter {env : CEnv} {st st' : HSt} {ss : List CStmt} {es : List ILEffect} {b : List String}
+    (h : compileStmtsH env st ss = .ok (es, b, st')) : st'.hyb = st.hyb + hybCountSs ss :=
+  compileStmtsH_hyb env ss h
+
+/-- non-vacuity for section 2: `x = i++ + j--` from the empty state -/
+example : ∃ ce st', compileExprH (progEnv Cfg.asCode []) (initSt 0)
+      (.bin "+" (.post "i" ⟨false, 32⟩ "++") (.post "j" ⟨false, 32⟩ "--")) = .ok (ce, st') ∧
+    PendOK (initSt 0) ∧ st'.hyb = 2 ∧ st'.pending.map (·.tmp) = ["h_tmp0", "h_tmp1"] :=
+  ⟨_, _, rfl, pendOK_init 0, rfl, by decide⟩
+
+/-! ## 3. Exactly once, at tree level -/
+
+/-- Every temporary is the target of at most one `SETL` in the emitted tree, and only the temporaries created
+    by this compilation (`h_tmp{hyb0}` … ) are set: each created entry is rendered at most once — pulled in front
+    of its consumer by `chk`, or left over and placed at the front by `compileProgH`. -/
+theorem setTmps_count_le {cfg : Cfg} {prog : List CStmt} {hyb0 : Nat} {eff : ILEffect}
+    (hn : namesOK prog = true) (h : compileProgH cfg prog hyb0 = .ok eff) (x : String) :
+    (setTmps eff).count x ≤ (freshNames hyb0 (hyb0 + hybCountSs prog)).count x := by
+  simpa using compileProgH_count false hn (Or.inl rfl) h x
+
+theorem setTmps_nodup {cfg : Cfg} {prog : List CStmt} {hyb0 : Nat} {eff : ILEffect}
+    (hn : namesOK prog = true) (h : compileProgH cfg prog hyb0 = .ok eff) : (setTmps eff).Nodup := by
+  rw [List.nodup_iff_count]
+  intro x
+  exact Nat.le_trans (setTmps_count_le hn h x) (List.nodup_iff_count.mp (freshNames_nodup _ _) x)
+
+/-- what is set are temporaries of this compilation -/
+theorem setTmps_subset {cfg : Cfg} {prog : List CStmt} {hyb0 : Nat} {eff : ILEffect}
+    (hn : namesOK prog = true) (h : compileProgH cfg prog hyb0 = .ok eff) :
+    ∀ t ∈ setTmps eff, ∃ n, hyb0 ≤ n ∧ n < hyb0 + hybCountSs prog ∧ t = s!"h_tmp{n}" := by
+  intro t ht
+  have := setTmps_count_le hn h t
+  have hpos := List.count_pos_iff.mpr ht
+  exact mem_freshNames.mp (List.count_pos_iff.mp (by omega))
+
+/-- at most one `SETL(h_tmp…)` per hybrid created -/
+theorem setTmps_length_le {cfg : Cfg} {prog : List CStmt} {hyb0 : Nat} {eff : ILEffect}
+    (hn : namesOK prog = true) (h : compileProgH cfg prog hyb0 = .ok eff) :
+    (setTmps eff).length ≤ hybCountSs prog := by
+  have := length_le_of_count_le _ _ (setTmps_count_le hn h)
+  rw [length_freshNames] at this
+  omega
+
+/-- Without a `?:` whose condition can fold to a constant (no dead arm is removed) every created temporary is
+    set EXACTLY once: the `SETL` targets of the emitted tree are a permutation of `h_tmp{hyb0}`, …,
+    `h_tmp{hyb0 + #hybrids - 1}`. -/
+theorem setTmps_perm {cfg : Cfg} {prog : List CStmt} {hyb0 : Nat} {eff : ILEffect}
+    (hn : namesOK prog = true) (hc : noConstTernSs prog = true) (h : compileProgH cfg prog hyb0 = .ok eff) :
+    (setTmps eff).Perm (freshNames hyb0 (hyb0 + hybCountSs prog)) := by
+  rw [List.perm_iff_count]
+  intro x
+  simpa using compileProgH_count true hn (Or.inr hc) h x
+
+theorem setTmps_length_eq {cfg : Cfg} {prog : List CStmt} {hyb0 : Nat} {eff : ILEffect}
+    (hn : namesOK prog = true) (hc : noConstTernSs prog = true) (h : compileProgH cfg prog hyb0 = .ok eff) :
+    (setTmps eff).length = hybCountSs prog := by
+  rw [(setTmps_perm hn hc h).length_eq, length_freshNames]; omega
+
+/-! ### non-vacuity and sharpness for section 3 -/
+
+def u32 : CT := ⟨false, 32⟩
+def s32 : CT := ⟨true, 32⟩
+
+/-- `{ i = RsV; RdV = i; i++; ReV = i; }` (known finding C06-unused-value-hybrid-moved) -/
+def progUnused : List CStmt :=
+  [ .assign (.var "i" u32) "=" (.reg "RsV" .src s32),
+    .assign (.reg "RdV" .dst s32) "=" (.var "i" u32),
+    .exprstmt (.post "i" u32 "++"),
+    .assign (.reg "ReV" .dst s32) "=" (.var "i" u32) ]
+
+/-- `{ i = 0; RdV = (PuV ? i++ : 1); ReV = i; }` (known finding C06-hybrid-in-conditional-context) -/
+def progTernArm : List CStmt :=
+  [ .assign (.var "i" u32) "=" (.lit 0 false ""),
+    .assign (.reg "RdV" .dst s32) "=" (.tern (.reg "PuV" .src ⟨true, 8⟩) (.post "i" u32 "++") (.lit 1 false "")),
+    .assign (.reg "ReV" .dst s32) "=" (.var "i" u32) ]
+
+/-- `{ j = 2; for (i = 0; (i + j++) < 5; i++) {} RdV = j; ReV = i; }` (hybrid in a loop condition) -/
+def progLoopCond : List CStmt :=
+  [ .assign (.var "j" u32) "=" (.lit 2 false ""),
+    .for_ "i" (.cmp "<" (.bin "+" (.var "i" u32) (.post "j" u32 "++")) (.lit 5 false "")) 0 [],
+    .assign (.reg "RdV" .dst s32) "=" (.var "j" u32),
+    .assign (.reg "ReV" .dst s32) "=" (.var "i" u32) ]
+
+/-- `{ RdV = (PuV ? ({ uint8_t x = RsV; x; }) : RtV); }` (known finding C06-stmtexpr-arm-value-read-unguarded) -/
+def progGccArm : List CStmt :=
+  [ .assign (.reg "RdV" .dst s32) "="
+      (.tern (.reg "PuV" .src ⟨true, 8⟩) (.stmtexpr ⟨false, 8⟩ "x" (.reg "RsV" .src s32)) (.reg "RtV" .src s32)) ]
+
+/-- `{ RdV = (1 ? 5 : i++); }`: the dead arm's entry is removed -/
+def progDeadArm : List CStmt :=
+  [ .assign (.reg "RdV" .dst s32) "=" (.tern (.lit 1 false "") (.lit 5 false "") (.post "i" u32 "++")) ]
+
+def isOkE {ε α : Type} : Except ε α → Bool
+  | .ok _ => true
+  | .error _ => false
+
+def setTmpsOf (r : Except String ILEffect) : List String :=
+  match r with
+  | .ok e => setTmps e
+  | .error _ => []
+
+set_option maxRecDepth 100000 in
+/-- the hypotheses of `setTmps_perm` hold of concrete programs with hybrids (loop: two temporaries) -/
+example : namesOK progLoopCond = true ∧ noConstTernSs progLoopCond = true ∧
+    isOkE (compileProgH Cfg.asCode progLoopCond) = true ∧ hybCountSs progLoopCond = 2 ∧
+    setTmpsOf (compileProgH Cfg.asCode progLoopCond) = ["h_tmp0", "h_tmp1"] := by decide +kernel
+
+set_option maxRecDepth 100000 in
+/-- sharpness: with a constant `?:` condition the inequality of `setTmps_length_le` is strict
+    (one hybrid in the source, its entry removed with the dead arm, nothing set) -/
+example : namesOK progDeadArm = true ∧ noConstTernSs progDeadArm = false ∧ hybCountSs progDeadArm = 1 ∧
+    isOkE (compileProgH Cfg.asCode progDeadArm) = true ∧
+    setTmpsOf (compileProgH Cfg.asCode progDeadArm) = [] := by decide +kernel
+
+/-! ## 4. Written before read at the consumer (`chk`) -/
+
+/-- `chk st e bare after`: if no pending entry is named among the leaves of `e` (or `bare`) nothing changes;
+    otherwise the result is `SEQN(render p₁, …, render pₖ, e)` — the popped entries, in leaf order, BEFORE `e`
+    (`after = false`), or `SEQN(e, render p₁, …)` for the loop step (`after = true`) — and exactly the popped
+    entries leave the pending list. -/
+theorem chk_consumer_shape (st : HSt) (e : ILEffect) (bare : List String) (after : Bool) :
+    (chkPopped st e bare = [] ∧ chk st e bare after = (e, st)) ∨
+    (chkPopped st e bare ≠ [] ∧
+      (chk st e bare after).1 = (if after then .seqn (e :: (chkPopped st e bare).map Pend.render)
+                                 else .seqn ((chkPopped st e bare).map Pend.render ++ [e])) ∧
+      (chk st e bare after).2 = { st with pending := (popPending st.pending (tmpsOfEffect e ++ bare)).2 }) :=
+  chk_shape st e bare after
+
+/-- flattened view (`SEQN` nesting removed): the members of the popped entries, then the members of `e`,
+    and nothing else -/
+theorem chk_members_before (st : HSt) (e : ILEffect) (bare : List String) :
+    flatE (chk st e bare false).1 = (chkPopped st e bare).flatMap (fun p => flatE p.render) ++ flatE e :=
+  chk_flat_before st e bare
+
+/-- the loop-step case: the popped entries come AFTER the body -/
+theorem chk_members_after (st : HSt) (e : ILEffect) (bare : List String) :
+    flatE (chk st e bare true).1 = flatE e ++ (chkPopped st e bare).flatMap (fun p => flatE p.render) :=
+  chk_flat_after st e bare
+
+/-- each popped entry's `SETL(tmp, …)` is among the members placed in front of `e` -/
+theorem chk_setTmp_before (st : HSt) (e : ILEffect) (bare : List String) (hs : ∀ p ∈ st.pending, shapeOK p) :
+    ∀ p ∈ chkPopped st e bare, ∃ pre post, flatE (chk st e bare false).1 = pre ++ p.setTmp :: post ++ flatE e := by
+  intro p hp
+  have hpp : p ∈ st.pending := ((popPending_spec st.pending (tmpsOfEffect e ++ bare)).1 p hp).1
+  have hm : p.setTmp ∈ (chkPopped st e bare).flatMap (fun p => flatE p.render) :=
+    List.mem_flatMap.mpr ⟨p, hp, setTmp_mem_render (hs p hpp)⟩
+  obtain ⟨pre, post, hsplit⟩ := List.append_of_mem hm
+  exact ⟨pre, post, by rw [chk_flat_before, hsplit]⟩
+
+/-- every pending temporary that `e` reads (or a bare expression statement carries) is set in the prefix -/
+theorem chk_written_before_read (st : HSt) (e : ILEffect) (bare : List String)
+    (hs : ∀ p ∈ st.pending, shapeOK p) {t : String} (ht : t ∈ tmpsOfEffect e ++ bare)
+    (hp : ∃ p ∈ st.pending, p.tmp = t) :
+    t ∈ setTmpsL ((chkPopped st e bare).map Pend.render) :=
+  chk_sets_what_is_read st e bare hs ht hp
+
+/-- and no entry left pending is read by `e` -/
+theorem chk_rest_not_read (st : HSt) (e : ILEffect) (bare : List String) (after : Bool) :
+    ∀ p ∈ (chk st e bare after).2.pending, p.tmp ∉ tmpsOfEffect e ++ bare :=
+  chk_rest_unread st e bare after
+
+set_option maxRecDepth 100000 in
+/-- non-vacuity: `RdV = h_tmp0` with the postfix entry pending: the entry is rendered in front -/
+example : shapeOK (postPend 0 "i" u32 "++") ∧
+    (chkPopped { (initSt 1) with pending := [postPend 0 "i" u32 "++"] } (.setl "x" (.varl "h_tmp0")) []).map (·.tmp)
+      = ["h_tmp0"] :=
+  ⟨⟨⟨_, rfl⟩, isHTmp_tmpName 0⟩, by decide +kernel⟩
+
+/-! ## 5. Values, on the IL semantics -/
+
+/-- what `v++` / `v--` leaves behind in the compiler state -/
+theorem post_creates {env : CEnv} {st st' : HSt} {v : String} {t : CT} {op : String} {ce : CE}
+    (h : compileExprH env st (.post v t op) = .ok (ce, st')) :
+    ce.il = .varl s!"h_tmp{st.hyb}" ∧ st'.pending = st.pending ++ [postPend st.hyb v t op] ∧ st'.hyb = st.hyb + 1 := by
+  obtain ⟨rfl, rfl⟩ := inv_post h
+  exact ⟨rfl, rfl, rfl⟩
+
+/-- (5a) Executing the rendered entry of `v++` / `v--` from a state where `v` holds `x`: the temporary ends up
+    with the OLD value `x`, `v` with `x + 1` (`INC`) resp. `x - 1` (`DEC`), everything else is unchanged. -/
+theorem post_old_value (ms : MacroSem) (hyb : Nat) (v : String) (t : CT) (op : String) (σ : MState)
+    (x : BitVec t.width) (hv : lookupS v σ.locals = some (.bv t.width x)) (hne : isHTmp v = false) :
+    ∃ σ', ExecIL ms (postPend hyb v t op).render σ σ' ∧
+      lookupS s!"h_tmp{hyb}" σ'.locals = some (.bv t.width x) ∧
+      lookupS v σ'.locals = some (.bv t.width (if op == "++" then x + 1 else x - 1)) ∧
+      (∀ k, k ≠ s!"h_tmp{hyb}" → k ≠ v → lookupS k σ'.locals = lookupS k σ.locals) ∧
+      σ'.mem = σ.mem ∧ σ'.new = σ.new ∧ σ'.written = σ.written :=
+  post_render_exec_tmp ms hyb v t op σ x hv hne
+
+/-- (5a) against the C side: the value C gives `v++` is what the temporary holds afterwards, and all other
+    locals (in particular `v`) agree with C's state after the expression. -/
+theorem post_value_is_C_value (ms : MacroSem) (subs : CSubEnv) (hyb : Nat) (v : String) (t : CT) (op : String)
+    (σ σC : MState) (val : Val) (fuel : Nat) (x : BitVec t.width)
+    (hv : lookupS v σ.locals = some (.bv t.width x)) (hne : isHTmp v = false)
+    (hC : evalCH ms subs (fuel + 1) σ (.post v t op) = .ok (val, σC)) :
+    ∃ σIL, ExecIL ms (postPend hyb v t op).render σ σIL ∧
+      lookupS s!"h_tmp{hyb}" σIL.locals = some val ∧
+      (∀ k, k ≠ s!"h_tmp{hyb}" → lookupS k σIL.locals = lookupS k σC.locals) :=
+  post_agrees ms subs hyb v t op σ σC val fuel x hv hne hC
+
+/-- non-vacuity of (5a) -/
+example : ∃ σ : MState, lookupS "i" σ.locals = some (.bv (u32).width (7 : BitVec 32)) ∧ isHTmp "i" = false :=
+  ⟨{ (default : MState) with locals := [("i", .bv 32 7)] }, rfl, by rw [isHTmp_eq]; decide⟩
+
+/-- (5b) a statement-expression arm of `?:` is put under the guard by the compiler … -/
+theorem tern_guards_then_arm {s : HSt} {ca cc : CE} {n : String} (hg : gccTmpOf s ca = some n) :
+    (ternWrapThen s ca cc).pending =
+      s.pending.map (fun p => if p.tmp == n then { p with exec := .branch (condILk cc) p.exec .empty } else p) :=
+  ternWrapThen_guards hg
+
+theorem tern_guards_else_arm {s : HSt} {cb cc : CE} {n : String} (hg : gccTmpOf s cb = some n) :
+    (ternWrapElse s cb cc).pending =
+      s.pending.map (fun p => if p.tmp == n then { p with exec := .branch (condILk cc) .empty p.exec } else p) :=
+  ternWrapElse_guards hg
+
+/-- … and `compileExprH` on `c ? a : b` with a non-constant condition ends in exactly that state -/
+theorem tern_state {env : CEnv} {st st' : HSt} {c a b : CExpr} {ce : CE}
+    (h : compileExprH env st (.tern c a b) = .ok (ce, st')) :
+    ∃ cc s1 ca s2 cb s3, compileExprH env st c = .ok (cc, s1) ∧ compileExprH env s1 a = .ok (ca, s2) ∧
+      compileExprH env s2 b = .ok (cb, s3) ∧
+      (ternFold cc = none → st' = ternWrapElse (ternWrapThen s3 ca cc) cb cc) := by
+  obtain ⟨cc, s1, ca, s2, cb, s3, h1, h2, h3, rfl, _⟩ := inv_tern h
+  refine ⟨cc, s1, ca, s2, cb, s3, h1, h2, h3, fun hf => ?_⟩
+  simp only [ternState, hf]
+
+/-- (5b) … and a guarded statement runs only if its arm is selected: condition false → state unchanged -/
+theorem guard_not_selected (ms : MacroSem) (c : ILPure) (ex : ILEffect) (σ : MState)
+    (hc : evalPure ms σ [] c = .ok (.bool false)) : ExecIL ms (.branch c ex .empty) σ σ :=
+  guard_then_false ms c ex σ hc
+
+/-- condition true → exactly the statement runs -/
+theorem guard_selected (ms : MacroSem) (c : ILPure) (ex : ILEffect) (σ σ' : MState)
+    (hc : evalPure ms σ [] c = .ok (.bool true)) :
+    ExecIL ms (.branch c ex .empty) σ σ' ↔ ExecIL ms ex σ σ' :=
+  guard_then_true ms c ex σ σ' hc
+
+theorem guard_else_not_selected (ms : MacroSem) (c : ILPure) (ex : ILEffect) (σ : MState)
+    (hc : evalPure ms σ [] c = .ok (.bool true)) : ExecIL ms (.branch c .empty ex) σ σ :=
+  guard_else_true ms c ex σ hc
+
+theorem guard_else_selected (ms : MacroSem) (c : ILPure) (ex : ILEffect) (σ σ' : MState)
+    (hc : evalPure ms σ [] c = .ok (.bool false)) :
+    ExecIL ms (.branch c .empty ex) σ σ' ↔ ExecIL ms ex σ σ' :=
+  guard_else_false ms c ex σ σ' hc
+
+/-- non-vacuity of (5b) -/
+example : evalPure (fun _ _ => none) default [] .bfalse = .ok (.bool false) := rfl
+
+/-- what `({ T v = e; v; })` leaves behind in the compiler state -/
+theorem stmtexpr_creates {env : CEnv} {st st' : HSt} {t : CT} {v : String} {e : CExpr} {ce : CE}
+    (h : compileExprH env st (.stmtexpr t v e) = .ok (ce, st')) :
+    ∃ c1 s1, compileExprH env st e = .ok (c1, s1) ∧
+      st'.pending = (chk s1 (.setl v (gccSrc env.cfg t c1).il) []).2.pending ++
+        [gccPend s1.hyb v (chk s1 (.setl v (gccSrc env.cfg t c1).il) []).1] ∧
+      ce.il = .varl s!"h_tmp{s1.hyb}" := by
+  obtain ⟨c1, s1, h1, rfl, rfl⟩ := inv_stmtexpr h
+  refine ⟨c1, s1, h1, ?_, ?_⟩
+  · simp only [gccState]; rw [(chk_snd _ _ _ _).1]
+  · simp only; rw [(chk_snd _ _ _ _).1]; rfl
+
+/-- (5c) rendering a statement-expression entry: the inner statement runs, then the temporary receives the
+    value `v` holds at that point (the value of the last expression `v;`) -/
+theorem stmtexpr_value (ms : MacroSem) (hyb : Nat) (v : String) (stmt : ILEffect) (σ σ1 : MState) (x : Val)
+    (h1 : ExecIL ms stmt σ σ1) (hv : lookupS v σ1.locals = some x) :
+    ∃ σ', ExecIL ms (gccPend hyb v stmt).render σ σ' ∧ lookupS s!"h_tmp{hyb}" σ'.locals = some x ∧
+      (∀ k, k ≠ s!"h_tmp{hyb}" → lookupS k σ'.locals = lookupS k σ1.locals) :=
+  ⟨_, gcc_render_exec ms hyb v stmt σ σ1 x h1 hv, C05.lookupS_setLocal_self _ _ _,
+    fun _ hk => C05.lookupS_setLocal_ne hk _ _⟩
+
+/-- (5c) with the plain inner declaration: the temporary (and `v`) hold the value of the initialiser -/
+theorem stmtexpr_value_plain (ms : MacroSem) (hyb : Nat) (v : String) (il : ILPure) (σ : MState) (x : Val)
+    (he : evalPure ms σ [] il = .ok x) (hne : isHTmp v = false) :
+    ∃ σ', ExecIL ms (gccPend hyb v (.setl v il)).render σ σ' ∧
+      lookupS s!"h_tmp{hyb}" σ'.locals = some x ∧ lookupS v σ'.locals = some x :=
+  gcc_render_plain ms hyb v il σ x he hne
+
+/-- non-vacuity of (5c) -/
+example : evalPure (fun _ _ => none) default [] (.const false 8 5) = .ok (.bv 8 5) ∧ isHTmp "x" = false :=
+  ⟨rfl, by rw [isHTmp_eq]; decide⟩
+
+/-! ## 6. Witnesses of the violations (kernel-evaluated: C result vs. result of the emitted IL) -/
+
+def noMacros : MacroSem := fun _ _ => none
+
+/-- observation of a final state: the given locals (as naturals) and the `.new` values of the given operands;
+    a stuck execution is reported as such -/
+def obs (vars regs : List String) : Except Stuck MState → Stuck ⊕ (List (Option Nat) × List Nat)
+  | .ok σ => .inr (vars.map (fun v => (lookupS v σ.locals).map (fun x =>
+      match x with | .bv _ b => b.toNat | .bool b => b.toNat | _ => 0)), regs.map σ.new)
+  | .error e => .inl e
+
+/-- C side: `execCHs` on the source program -/
+def runC (p : List CStmt) (fuel : Nat) (σ : MState) : Except Stuck MState := execCHs noMacros [] fuel p σ
+
+/-- IL side: `execIL` on what `compileProgH Cfg.asCode` emits -/
+def runIL (p : List CStmt) (fuel : Nat) (σ : MState) : Except Stuck MState :=
+  match compileProgH Cfg.asCode p with
+  | .ok eff => execIL noMacros [] fuel eff σ
+  | .error _ => .error (.undef "compile")
+
+/-- start state: `RsV = rs`, `PuV = pu`, `RtV = 77`, given locals -/
+def startSt (rs pu : Nat) (locals : List (String × Val) := []) : MState :=
+  { (default : MState) with
+    cur := fun k => if k == "Rs_op" then rs else if k == "Pu_op" then pu else if k == "Rt_op" then 77 else 0,
+    locals := locals }
+
+/-- the order in which the emitted tree writes its targets -/
+def emittedOrder (p : List CStmt) : List String :=
+  match compileProgH Cfg.asCode p with
+  | .ok e => writeOrder e
+  | .error _ => []
+
+set_option maxRecDepth 100000 in
+/-- **unused expression statement moved to the front**: `{ i = RsV; RdV = i; i++; ReV = i; }`.
+    The tree starts with the rendered `i++` (`h_tmp0 := i; i := INC(i)`), before `i = RsV`. -/
+theorem witness_unused_tree : emittedOrder progUnused = ["h_tmp0", "i", "i", "Rd_op", "Re_op"] := by
+  decide +kernel
+
+set_option maxRecDepth 100000 in
+/-- C: `RdV = 5`, `ReV = 6`, `i = 6`; the IL reads `i` before it is ever set and gets stuck. -/
+theorem witness_unused_stuck :
+    obs ["i"] ["Rd_op", "Re_op"] (runC progUnused 20 (startSt 5 0)) = .inr ([some 6], [5, 6]) ∧
+    obs ["i"] ["Rd_op", "Re_op"] (runIL progUnused 20 (startSt 5 0)) = .inl (.unbound "i") := by decide +kernel
+
+set_option maxRecDepth 100000 in
+/-- same program with `i` already defined (40): the IL runs, but the increment is lost: `ReV = 5`, not 6. -/
+theorem witness_unused_value :
+    obs ["i"] ["Rd_op", "Re_op"] (runC progUnused 20 (startSt 5 0 [("i", .bv 32 40)])) = .inr ([some 6], [5, 6]) ∧
+    obs ["i"] ["Rd_op", "Re_op"] (runIL progUnused 20 (startSt 5 0 [("i", .bv 32 40)])) = .inr ([some 5], [5, 5]) := by
+  decide +kernel
+
+set_option maxRecDepth 100000 in
+/-- **postfix in a `?:` arm takes effect although the arm is not selected**:
+    `{ i = 0; RdV = (PuV ? i++ : 1); ReV = i; }` with `PuV = 0`: C leaves `i = 0`, the IL increments. -/
+theorem witness_tern_arm :
+    obs ["i"] ["Rd_op", "Re_op"] (runC progTernArm 20 (startSt 5 0)) = .inr ([some 0], [1, 0]) ∧
+    obs ["i"] ["Rd_op", "Re_op"] (runIL progTernArm 20 (startSt 5 0)) = .inr ([some 1], [1, 1]) := by decide +kernel
+
+set_option maxRecDepth 100000 in
+/-- **hybrid in a loop condition evaluated once, before the loop**:
+    `{ j = 2; for (i = 0; (i + j++) < 5; i++) {} RdV = j; ReV = i; }`: C ends with `i = 2, j = 5`,
+    the IL with `i = 3, j = 3`. -/
+theorem witness_loop_cond :
+    obs ["i", "j"] ["Rd_op", "Re_op"] (runC progLoopCond 40 (startSt 5 0)) = .inr ([some 2, some 5], [5, 2]) ∧
+    obs ["i", "j"] ["Rd_op", "Re_op"] (runIL progLoopCond 40 (startSt 5 0)) = .inr ([some 3, some 3], [3, 3]) := by
+  decide +kernel
+
+set_option maxRecDepth 100000 in
+/-- **value of a statement-expression arm read outside the guard**:
+    `{ RdV = (PuV ? ({ uint8_t x = RsV; x; }) : RtV); }`: the arm's statement is under `BRANCH`, the copy
+    `SETL(h_tmp0, VARL(x))` is not. With `PuV = 0` C gives `RdV = RtV = 77`; the IL reads the never-set `x`. -/
+theorem witness_gcc_arm :
+    obs ["x"] ["Rd_op"] (runC progGccArm 20 (startSt 5 0)) = .inr ([none], [77]) ∧
+    obs ["x"] ["Rd_op"] (runIL progGccArm 20 (startSt 5 0)) = .inl (.unbound "x") ∧
+    -- selected arm: both sides agree
+    obs ["x"] ["Rd_op"] (runC progGccArm 20 (startSt 5 1)) = .inr ([some 5], [5]) ∧
+    obs ["x"] ["Rd_op"] (runIL progGccArm 20 (startSt 5 1)) = .inr ([some 5], [5]) := by decide +kernel
+
+/-- a hybrid in an `if` condition inside a loop body IS placed correctly (in front of the BRANCH, inside the
+    body): `{ j = 0; for (i = 0; i < 3; i++) { if (j++ < 1) { RdV = j; } } ReV = j; }` -/
+def progIfInLoop : List CStmt :=
+  [ .assign (.var "j" u32) "=" (.lit 0 false ""),
+    .for_ "i" (.cmp "<" (.var "i" u32) (.lit 3 false "")) 0
+      [ .ite (.cmp "<" (.post "j" u32 "++") (.lit 1 false "")) [ .assign (.reg "RdV" .dst s32) "=" (.var "j" u32) ] none ],
+    .assign (.reg "ReV" .dst s32) "=" (.var "j" u32) ]
+
+set_option maxRecDepth 100000 in
+theorem example_if_in_loop_agrees :
+    obs ["i", "j"] ["Rd_op", "Re_op"] (runC progIfInLoop 40 (startSt 5 0)) = .inr ([some 3, some 3], [1, 3]) ∧
+    obs ["i", "j"] ["Rd_op", "Re_op"] (runIL progIfInLoop 40 (startSt 5 0)) = .inr ([some 3, some 3], [1, 3]) := by
+  decide +kernel
+
+/-! ## 7. Simulation on a fragment (stretch)
+
+Fragment: `T n = e;` / `n = e;` where `e` is built from leaves, casts, unary/binary arithmetic, shifts,
+comparisons, `!` and postfix `v++` / `v--` (`postOnly e`), the postfix variables being pairwise distinct, declared
+locals that `e` does not otherwise read (`postsIndep e`, `postsTyped c e`).  Under the repaired configuration
+`Cfg.fixed`, from a compiler state without pending entries:
+* compile side: `compileExprH` gives exactly what `compileExpr` gives for `unhyb k e` (each postfix operation
+  replaced by a read of its temporary) and leaves exactly the postfix entries pending;
+* C side: `evalCH` of `e` gives the value `evalC` gives for `unhyb k e` in a state binding the temporaries to the
+  old values, and applies the postfix operations in order;
+* the emitted effect (postfix entries rendered in front of the assignment, pulled there by `chk`) executed by
+  `execIL` from an `Inv`-related state ends in a state `Inv`-related to the result of `execCH`. -/
+
+/-- compile side of the fragment -/
+theorem compileExprH_unhyb {env : CEnv} (hcfg : env.cfg.literalTypeBySuffixOnly = false) {e : CExpr} {st st' : HSt}
+    {ce : CE} (hp : postOnly e = true) (h : compileExprH env st e = .ok (ce, st')) :
+    compileExpr env (unhyb st.hyb e) = .ok ce ∧
+    st'.pending = st.pending ++ postPendsFrom st.hyb (postsOf e) ∧
+    st'.hyb = st.hyb + (postsOf e).length :=
+  let r := compileExprH_frag env hcfg e hp h
+  ⟨r.plain, r.pending, r.hyb⟩
+
+/-- and every temporary created is read by the compiled expression -/
+theorem compileExprH_reads_tmps {env : CEnv} {e : CExpr} {st st' : HSt} {ce : CE} (hp : postOnly e = true)
+    (h : compileExprH env st e = .ok (ce, st')) :
+    ∀ p ∈ postPendsFrom st.hyb (postsOf e), p.tmp ∈ tmpsOfPure ce.il :=
+  fun _ hp' => frag_tmps_read env e hp h _ (List.mem_map_of_mem hp')
+
+/-- C side of the fragment -/
+theorem evalCH_unhyb (ms : MacroSem) (subs : CSubEnv) {e : CExpr} (hp : postOnly e = true)
+    (hind : postsIndep e = true) {f : Nat} {σ σ' : MState} {v : Val}
+    (h : evalCH ms subs f σ e = .ok (v, σ')) :
+    σ' = applyPosts (postsOf e) σ ∧
+    ∀ (k : Nat) (σ2 : MState), Ext k (readVars e) (postsOf e) σ σ2 → evalC ms σ2 (unhyb k e) = .ok v := by
+  obtain ⟨hnd, hdis, _⟩ := postsIndep_spec hind
+  obtain ⟨h1, _, h3⟩ := evalCH_frag ms subs e hp hnd (fun v hv => (hdis v hv).2) f σ σ' v h
+  exact ⟨h1, h3⟩
+
+section
+variable {ms : MacroSem} {WF : MState → CExpr → Prop} {c : Ctx} {env : CEnv}
+
+/-- `T n = e;` on the fragment, relative to the expression theorem `ExprOK ms WF` -/
+theorem decl_post_sim (hE : C05.ExprOK ms WF) (henv : env.cfg = Cfg.fixed) (hc : c.ok = true)
+    {st st' : HSt} {t : CT} {n : String} {e : CExpr} {eff : Option ILEffect} {b : List String}
+    (hst : st.pending = [])
+    (hcomp : compileStmtH env st (.decl t n (some e)) = .ok (eff, b, st'))
+    (hdecl : lookupS n c.types = some t) (hw : t.width ≠ 1)
+    (hfrag : postOnly e = true) (hind : postsIndep e = true) (hty : postsTyped c e = true)
+    (hWF : WFHypT ms WF c st.hyb e)
+    {subs : CSubEnv} {σC σIL σC' : MState} {f : Nat}
+    (hinv : C05.Inv c σC σIL) (hex : execCH ms subs (f+1) (.decl t n (some e)) σC = .ok σC') :
+    ∃ effIL σIL', eff = some effIL ∧ ExecIL ms effIL σIL σIL' ∧ C05.Inv c σC' σIL' ∧ st'.pending = [] :=
+  decl_post_correct hE henv hc hst hcomp hdecl hw hfrag hind hty hWF hinv hex
+
+/-- `n = e;` on the fragment -/
+theorem assign_post_sim (hE : C05.ExprOK ms WF) (henv : env.cfg = Cfg.fixed) (hc : c.ok = true)
+    {st st' : HSt} {tn : CT} {n : String} {e : CExpr} {eff : Option ILEffect} {b : List String}
+    (hst : st.pending = [])
+    (hcomp : compileStmtH env st (.assign (.var n tn) "=" e) = .ok (eff, b, st'))
+    (hdecl : lookupS n c.types = some tn) (hw : tn.width ≠ 1)
+    (hfrag : postOnly e = true) (hind : postsIndep e = true) (hty : postsTyped c e = true)
+    (hWF : WFHypT ms WF c st.hyb e)
+    {subs : CSubEnv} {σC σIL σC' : MState} {f : Nat}
+    (hinv : C05.Inv c σC σIL) (hex : execCH ms subs (f+1) (.assign (.var n tn) "=" e) σC = .ok σC') :
+    ∃ effIL σIL', eff = some effIL ∧ ExecIL ms effIL σIL σIL' ∧ C05.Inv c σC' σIL' ∧ st'.pending = [] :=
+  assign_post_correct hE henv hc hst hcomp hdecl hw hfrag hind hty hWF hinv hex
+
+end
+
+/-! ### closed forms: the expression theorem of C02 plugged in, side conditions static -/
+
+theorem lookupS_append {α : Type} (n : String) (a b : List (String × α)) :
+    lookupS n (a ++ b) = match lookupS n a with | some v => some v | none => lookupS n b := by
+  induction a with
   | nil => rfl
-  | cons l ls ih =>
-    simp only [popPending, List.foldl_cons, List.find?_nil] at ih ⊢
-    exact ih
+  | cons p a ih =>
+    obtain ⟨k, v⟩ := p
+    simp only [List.cons_append, lookupS]
+    split
+    · rfl
+    · exact ih
 
-/-- A postfix hybrid sets its temporary BEFORE executing (old value), a call AFTER (return value). -/
-example : (Pend.render { tmp := "h_tmp0", deps := [], exec := .setl "i" (.inc (.varl "i") 32), setTmp := .setl "h_tmp0" (.varl "i"), setFirst := true, gcc := false })
-    = .seqn [.setl "h_tmp0" (.varl "i"), .setl "i" (.inc (.varl "i") 32)] := rfl
-example : (Pend.render { tmp := "h_tmp0", deps := [], exec := .call "hex_f" [], setTmp := .setl "h_tmp0" (.unsigned 32 (.varl "ret_val")), setFirst := false, gcc := false })
-    = .seqn [.call "hex_f" [], .setl "h_tmp0" (.unsigned 32 (.varl "ret_val"))] := rfl
+theorem lookupS_tmpTypes {k : Nat} {posts : List (String × CT × String)} {n : String} {t : CT}
+    (h : lookupS n (tmpTypes k posts) = some t) : ∃ j q, posts[j]? = some q ∧ n = tmpName (k + j) ∧ t = q.2.1 := by
+  induction posts generalizing k with
+  | nil => simp [tmpTypes, lookupS] at h
+  | cons q ps ih =>
+    obtain ⟨v, t', op⟩ := q
+    simp only [tmpTypes, lookupS] at h
+    split at h
+    · rename_i hn
+      simp only [Option.some.injEq] at h
+      exact ⟨0, (v, t', op), by simp, by simpa using hn, h.symm⟩
+    · obtain ⟨j, q, hj, hn, ht⟩ := ih h
+      exact ⟨j + 1, q, by simpa using hj, by rw [hn]; congr 1; omega, ht⟩
 
+/-- the invariant for the context extended by the (typed) temporaries -/
+theorem sinv_withTmps {c : Ctx} {σ : MState} {k : Nat} {posts : List (String × CT × String)}
+    (hs : C05.SInv c σ) (ht : TmpsTyped k posts σ) : C05.SInv (ctxWithTmps c k posts) σ := by
+  refine ⟨?_, hs.imms, hs.srcs⟩
+  intro n t v hn hv
+  simp only [ctxWithTmps, lookupS_append] at hn
+  split at hn
+  · rename_i t' ht'
+    simp only [Option.some.injEq] at hn; subst hn
+    exact hs.typed n _ v ht' hv
+  · obtain ⟨j, q, hj, rfl, rfl⟩ := lookupS_tmpTypes hn
+    obtain ⟨x, hx⟩ := ht j q hj
+    rw [hx] at hv
+    simp only [Option.some.injEq] at hv
+    exact ⟨x, hv.symm⟩
+
+/-- the static check `WFES` in the extended context discharges the well-formedness hypothesis -/
+theorem wfHypT_of_static (ms : MacroSem) {c : Ctx} {k : Nat} {e : CExpr}
+    (h : WFES (ctxWithTmps c k (postsOf e)) (unhyb k e) = true) :
+    WFHypT ms (fun σ e => WFE σ e = true) c k e :=
+  fun _ _ hs ht hev => C05.WFE_of_static ms (sinv_withTmps hs ht) _ h hev
+
+/-- `T n = e;` on the fragment, closed: all side conditions are decidable checks on the program text -/
+theorem decl_post_sim_closed {ms : MacroSem} (hms : MsOK ms) {c : Ctx} {env : CEnv}
+    (henv : env.cfg = Cfg.fixed) (hc : c.ok = true)
+    {st st' : HSt} {t : CT} {n : String} {e : CExpr} {eff : Option ILEffect} {b : List String}
+    (hst : st.pending = [])
+    (hcomp : compileStmtH env st (.decl t n (some e)) = .ok (eff, b, st'))
+    (hdecl : lookupS n c.types = some t) (hw : t.width ≠ 1)
+    (hfrag : postOnly e = true) (hind : postsIndep e = true) (hty : postsTyped c e = true)
+    (hwf : WFES (ctxWithTmps c st.hyb (postsOf e)) (unhyb st.hyb e) = true)
+    {subs : CSubEnv} {σC σIL σC' : MState} {f : Nat}
+    (hinv : C05.Inv c σC σIL) (hex : execCH ms subs (f+1) (.decl t n (some e)) σC = .ok σC') :
+    ∃ effIL σIL', eff = some effIL ∧ ExecIL ms effIL σIL σIL' ∧ C05.Inv c σC' σIL' ∧ st'.pending = [] :=
+  decl_post_correct (C05.exprOK_of_C02 hms) henv hc hst hcomp hdecl hw hfrag hind hty
+    (wfHypT_of_static ms hwf) hinv hex
+
+theorem assign_post_sim_closed {ms : MacroSem} (hms : MsOK ms) {c : Ctx} {env : CEnv}
+    (henv : env.cfg = Cfg.fixed) (hc : c.ok = true)
+    {st st' : HSt} {tn : CT} {n : String} {e : CExpr} {eff : Option ILEffect} {b : List String}
+    (hst : st.pending = [])
+    (hcomp : compileStmtH env st (.assign (.var n tn) "=" e) = .ok (eff, b, st'))
+    (hdecl : lookupS n c.types = some tn) (hw : tn.width ≠ 1)
+    (hfrag : postOnly e = true) (hind : postsIndep e = true) (hty : postsTyped c e = true)
+    (hwf : WFES (ctxWithTmps c st.hyb (postsOf e)) (unhyb st.hyb e) = true)
+    {subs : CSubEnv} {σC σIL σC' : MState} {f : Nat}
+    (hinv : C05.Inv c σC σIL) (hex : execCH ms subs (f+1) (.assign (.var n tn) "=" e) σC = .ok σC') :
+    ∃ effIL σIL', eff = some effIL ∧ ExecIL ms effIL σIL σIL' ∧ C05.Inv c σC' σIL' ∧ st'.pending = [] :=
+  assign_post_correct (C05.exprOK_of_C02 hms) henv hc hst hcomp hdecl hw hfrag hind hty
+    (wfHypT_of_static ms hwf) hinv hex
+
+/-! ### non-vacuity of section 7: `uint32_t x = (i++ + j--) + 1;` from `i = 7, j = 3` -/
+
+def fragCtx : Ctx := { types := [("i", u32), ("j", u32), ("x", u32)], imms := [], srcs := [] }
+def fragEnv : CEnv := { assigned := [], cfg := Cfg.fixed }
+def fragRhs : CExpr := .bin "+" (.bin "+" (.post "i" u32 "++") (.post "j" u32 "--")) (.lit 1 false "")
+def fragStmt : CStmt := .decl u32 "x" (some fragRhs)
+def fragState : MState := { (default : MState) with locals := [("i", .bv 32 7), ("j", .bv 32 3)] }
+
+theorem fragInv : C05.Inv fragCtx fragState fragState := by
+  refine ⟨C05.StRel.refl _, ⟨?_, ?_, ?_⟩, ?_⟩
+  · intro n t v hn hv
+    rcases C05.lookupS_two hv with ⟨rfl, rfl⟩ | ⟨rfl, rfl⟩
+    · have : t = u32 := by revert hn; simp [fragCtx, lookupS]; exact fun h => h.symm
+      subst this; exact ⟨_, rfl⟩
+    · have : t = u32 := by revert hn; simp [fragCtx, lookupS]; exact fun h => h.symm
+      subst this; exact ⟨_, rfl⟩
+  · intro l hl; cases hl
+  · intro ov ho; cases ho
+  · intro n hn
+    cases hl : lookupS n fragState.locals with
+    | none => rfl
+    | some v =>
+      rcases C05.lookupS_two hl with ⟨rfl, _⟩ | ⟨rfl, _⟩
+      · have : isTmp "i" = false := by decide
+        rw [this] at hn; cases hn
+      · have : isTmp "j" = false := by decide
+        rw [this] at hn; cases hn
+
+theorem msOK_noMacros : MsOK noMacros :=
+  fun _ _ _ => ⟨fun _ => rfl, fun _ _ h => by cases h⟩
+
+def finalLocalNat (n : String) : Except Stuck MState → Option Nat
+  | .ok σ => (lookupS n σ.locals).map (fun x => match x with | .bv _ b => b.toNat | _ => 0)
+  | .error _ => none
+
+set_option maxRecDepth 100000 in
+/-- every hypothesis of `decl_post_sim_closed` holds for this statement, the conclusion follows, and C's result
+    is `x = 11, i = 8, j = 2` -/
+example : ∃ eff b st' σC', compileStmtH fragEnv (initSt 0) fragStmt = .ok (eff, b, st') ∧
+    execCH noMacros [] 10 fragStmt fragState = .ok σC' ∧
+    (∃ effIL σIL', eff = some effIL ∧ ExecIL noMacros effIL fragState σIL' ∧ C05.Inv fragCtx σC' σIL' ∧
+      st'.pending = []) ∧
+    [finalLocalNat "x" (.ok σC'), finalLocalNat "i" (.ok σC'), finalLocalNat "j" (.ok σC')] = [some 11, some 8, some 2] := by
+  obtain ⟨⟨eff, b, st'⟩, hcomp⟩ := C05.isOk_elim (x := compileStmtH fragEnv (initSt 0) fragStmt) (by decide +kernel)
+  obtain ⟨σC', hC⟩ := C05.isOk_elim (x := execCH noMacros [] 10 fragStmt fragState) (by decide +kernel)
+  refine ⟨eff, b, st', σC', hcomp, hC, ?_, ?_⟩
+  · exact decl_post_sim_closed msOK_noMacros (c := fragCtx) rfl (by decide) rfl hcomp (by decide) (by decide)
+      (by decide) (by decide +kernel) (by decide) (by decide +kernel) fragInv hC
+  · have : [finalLocalNat "x" (execCH noMacros [] 10 fragStmt fragState),
+            finalLocalNat "i" (execCH noMacros [] 10 fragStmt fragState),
+            finalLocalNat "j" (execCH noMacros [] 10 fragStmt fragState)] = [some 11, some 8, some 2] := by
+      decide +kernel
+    rw [hC] at this; exact this
+
+end C06
 end Rzil
